@@ -467,7 +467,7 @@ func runCheck(id, tier string) int {
 				defer cancel()
 				args := []string{"-test.run", "^TestProp", "-test.timeout", to.String(),
 					"-rapid.seed", strconv.FormatInt(sd, 10), "-rapid.checks", strconv.Itoa(checks),
-					"-rapid.failfile", filepath.Join(dir, "rapid.fail"), "-rapid.shrinktime", bud.shrink()}
+					"-rapid.nofailfile", "-rapid.shrinktime", bud.shrink()}
 				env := []string{"VERIF_TIER=" + tier, "VERIF_SHARD=" + strconv.Itoa(j.shard), "VERIF_NSHARDS=" + strconv.Itoa(len(jobs)),
 					"VERIF_SEED_EFFECTIVE=" + strconv.FormatInt(sd, 10),
 					"VERIF_STATS=" + filepath.Join(dir, "stats.json"), "VERIF_HASHES=" + filepath.Join(dir, "hashes.bin"),
